@@ -80,9 +80,8 @@ Proof. rewrite <- denb_spec. destruct (denb s a m k); split; congruence. Qed.
 (** [out] is a possible result of [References.SortAndMerge] on [s] (for every
     order [s'] a correct sort may choose) *)
 Definition sortmerge_rel (s out : list ref) : Prop :=
-  ((length s < 2)%nat /\ out = s) \/
-  ((2 <= length s)%nat /\ has_conflict s = false /\
-   exists s', Permutation s s' /\ sorted_cmp s' = true /\ out = refs_sm_sorted s').
+  has_conflict s = false /\
+  exists s', Permutation s s' /\ sorted_cmp s' = true /\ out = refs_sm_sorted s'.
 
 (** [References.Exclude]: [out] is a possible result of [s.Exclude(exc...)] *)
 Definition exclude_rel (s exc out : list ref) : Prop :=
@@ -123,14 +122,13 @@ Qed.
 
 Lemma refs_sm_rel perm s out : refs_sm perm s = Ok out -> sortmerge_rel s out.
 Proof.
-  unfold refs_sm, sortmerge_rel. destruct s as [|a [|b t]].
-  - intros H. inversion H. left. cbn. split; [lia | reflexivity].
-  - intros H. inversion H. left. cbn. split; [lia | reflexivity].
-  - destruct (has_conflict (a :: b :: t)) eqn:C; [discriminate|].
-    destruct (valid_perm (length (a :: b :: t)) perm && sorted_cmp (apply_perm perm (a :: b :: t))) eqn:V; [|discriminate].
+  unfold refs_sm, sortmerge_rel. destruct s as [|a t].
+  - intros H. inversion H. split; [reflexivity|]. exists []. split; [constructor|]. split; reflexivity.
+  - destruct (has_conflict (a :: t)) eqn:C; [discriminate|].
+    destruct (valid_perm (length (a :: t)) perm && sorted_cmp (apply_perm perm (a :: t))) eqn:V; [|discriminate].
     intros H. inversion H. subst out. apply andb_prop in V. destruct V as (V1 & V2).
-    right. split; [cbn; lia|]. split; [reflexivity|].
-    exists (apply_perm perm (a :: b :: t)). split; [apply valid_perm_perm; assumption|]. split; [assumption | reflexivity].
+    split; [reflexivity|].
+    exists (apply_perm perm (a :: t)). split; [apply valid_perm_perm; assumption|]. split; [assumption | reflexivity].
 Qed.
 
 Lemma refs_exclude_rel ps pe s exc out : refs_exclude ps pe s exc = Ok out -> exclude_rel s exc out.
@@ -189,7 +187,7 @@ Qed.
 Lemma sortmerge_den s out : NoOverflow s -> sortmerge_rel s out ->
   forall a m k, den out a m k <-> den s a m k.
 Proof.
-  intros F [(L & ->) | (L & C & s' & P & S & ->)] a m k; [tauto|].
+  intros F (C & s' & P & S & ->) a m k.
   rewrite refs_sm_sorted_den; [symmetry; apply den_perm; assumption|].
   eapply Permutation_Forall; eassumption.
 Qed.
@@ -356,11 +354,9 @@ Qed.
     SortAndMerge under the assumption *)
 Lemma sortmerge_props ks s out : DistK ks -> incl (keys s) ks -> NoOverflow s -> sortmerge_rel s out ->
   incl (keys out) ks /\ Forall okref out /\ (exists lb, tn_strict_lb lb out) /\
-  ((2 <= length s)%nat -> Forall (fun o => separated (rranges o)) out).
+  Forall (fun o => separated (rranges o)) out.
 Proof.
-  intros D I F [(L & ->) | (L & C & s' & P & S & ->)].
-  - repeat split; try assumption; [|lia].
-    destruct s as [|a [|b t]]; [exists 0; exact Logic.I | exists (tn a - 1); cbn; split; [lia | exact Logic.I] | cbn in L; lia].
+  intros D I F (C & s' & P & S & ->).
   - assert (F' : Forall okref s') by (eapply Permutation_Forall; eassumption).
     assert (I' : incl (keys s') ks) by (intros x Hx; apply I; eapply keys_perm; eassumption).
     pose proof (sorted_cmp_tn ks s' D I' S) as T.
@@ -381,15 +377,15 @@ Proof.
     + intros x Hx. apply I'. apply K. exact Hx.
     + eapply Forall_impl; [|exact O]. cbn beta. tauto.
     + exists (tn na - 1). apply (sm_loop_strict ks); [assumption | rewrite Kn; exact I' | exact Tn | lia].
-    + intros _. eapply Forall_impl; [|exact O]. cbn beta. tauto.
+    + eapply Forall_impl; [|exact O]. cbn beta. tauto.
 Qed.
 
-Lemma sortmerge_normal s out : Distinguishable s -> NoOverflow s -> (2 <= length s)%nat ->
+Lemma sortmerge_normal s out : Distinguishable s -> NoOverflow s ->
   sortmerge_rel s out -> NormalRefs out.
 Proof.
-  intros D F L R.
+  intros D F R.
   destruct (sortmerge_props (keys s) s out D (incl_refl _) F R) as (I & O & (lb & S) & N).
-  split; [eapply strict_nodup; eassumption | apply N; exact L].
+  split; [eapply strict_nodup; eassumption | exact N].
 Qed.
 
 (** ** Exclude *)
@@ -567,7 +563,7 @@ Proof.
   intros F [(-> & ->) | (NE & s0 & s1 & R0 & R1 & W)] a m k H; [exact H|].
   apply Forall_app in F. destruct F as (Fs & Fe).
   assert (okout : forall x y, NoOverflow x -> sortmerge_rel x y -> Forall okref y).
-  { intros x y Fx [(L & ->) | (L & C & s' & P & S & ->)]; [exact Fx|].
+  { intros x y Fx (C & s' & P & S & ->).
     assert (F' : Forall okref s') by (eapply Permutation_Forall; eassumption).
     pose proof (okref_map_norm s' F') as Fn. unfold refs_sm_sorted.
     destruct (map _ s') as [|r t]; [constructor|]. inversion Fn; subst.
